@@ -199,10 +199,16 @@ func (fc *FnCtx) funcValueName(v ssa.Value) string {
 }
 
 func (fc *FnCtx) callAsserts(name string, ord int, before bool, args []Val, res *Val, c *ssa.CallCommon, instr ssa.Instruction, st *State, g *smt.Term, where string) {
-	if fc.C == nil {
+	cs := fc.C
+	if cs == nil && fc.inline != nil && fc.parentCtx != nil {
+		// a deferred closure inlined into its function: the function's call-site
+		// assertions apply to the calls it makes (ordinals count within the closure)
+		cs = fc.parentCtx.C
+	}
+	if cs == nil {
 		return
 	}
-	for _, ca := range fc.C.CallAsserts {
+	for _, ca := range cs.CallAsserts {
 		if ca.Callee != name || ca.Before != before || (ca.Ord != 0 && ca.Ord != ord) {
 			continue
 		}
